@@ -101,7 +101,8 @@ func applyPipelineConstants(module *ir.Module, constants map[string]float64) *ir
 			key := fmt.Sprintf("%d", *ov.ID)
 			value, found = constants[key]
 		}
-		if !found {
+		if !found && ov.ID == nil {
+			// An override declared with @id is addressed by its id only.
 			value, found = constants[ov.Name]
 		}
 
